@@ -16,25 +16,27 @@ reg = {
    ['Flat.closureOf_spec','Flat.partOfAux_spec','Flat.simplexWithBasis_spec','Flat.simplexWithFaces_some','Flat.simplexWithFaces_none','Disj.disjointL_iff',
     'Flat.closure_card','Flat.partOf_spec','Flat.closure_part_dual','Flat.disjointQ_spec','Flat.disjointQ_spec_pts','Flat.query_names_mem']),
  'C05': (Q('C05'), ['Flat.addS_atomic','Flat.addSimplex_rejects','Flat.addS_rejects_state',"Flat.addSimplexWithBasis'_guards","Flat.addSimplexWithBasis'_atomic",'Flat.relabel_atomic','Flat.relabel_rejects','Flat.copyInto_overlap','Flat.deleteSimplex_unknown','Flat.restrict_nonbasis','Flat.subdivide_rejects']),
- 'C06': (P('RankBridge','MatProofs','Betti','Rank') + Q('Homology'),
+ 'C06': (P('RankBridge','MatProofs','Betti','Rank') + Q('Homology','BettiFam'),
    ['M2.snf_rank','M2.snf_shape','M2.snf_counts','M2.euler_poincare','rank_rowop','rank_colop','rank_swap','rank_partialId',
-    'Flat.bettiK_spec','Flat.bettiK_spec_inv','Flat.bettiK_above_max','Flat.euler_poincare_cx','Flat.bopMat_relabel_invariant','Flat.betti_relabel_invariant','Flat.snfK_spec']),
+    'Flat.bettiK_spec','Flat.bettiK_spec_inv','Flat.bettiK_above_max','Flat.euler_poincare_cx','Flat.bopMat_relabel_invariant','Flat.betti_relabel_invariant','Flat.snfK_spec',
+    'Flat.betti_fam_invariant','Flat.betti0_components','Flat.betti0_le_points','Flat.betti0_no_edges','M2.incidence_rank']),
  'C07': (P('LabelsBridge','Labels','Labels2','RankBridge') + Q('Homology'),
    ['M2.Z_core','M2.snf_rank','KerEq.rowop','KerEq.colpass','KerEq.colswap','KerEq.zero_col','cols_independent',
     'Flat.snfK_spec','Flat.snfK_eq_mk','Flat.Zk_names','Flat.Zk_length','Flat.Zk_empty','Flat.Zk_cycle_even','Flat.Zk_boundary','Flat.Zk_independent','Flat.Zk_linearIndependent','Flat.Zk_spec']),
  'C08': (Q('Heap'), ['W.copyOp_fresh','W.deepcopyOp_fresh','W.flagOp_fresh','W.jsonOp_fresh','W.snapOp_fresh','W.composeOp_fresh','W.composeOp_atomic','W.mutator_frame','W.dictSetOp_frame']),
  'C09': (Q('Heap','Copy'), ['W.copyOp_fresh',"W.copyOp_fresh'",'W.copyOp_contents','W.deepcopyOp_contents','W.mutator_frame','W.independent_step','W.independent_list','W.independent','W.independent_obs','W.FreshSpec.independent','W.sync_inv','Flat.copyNew_spec','Flat.copyNew_perm']),
  'C10': (P('FlatCmp') + Q('Copy'), ['Flat.isSub_iff',"Flat.le_refl'","Flat.le_trans'",'Flat.le_antisymm_eq','Flat.eq_iff','Flat.lt_iff','Flat.copy_eq','Flat.copy_le_not_lt','Flat.delete_lt','Flat.eq_symm','Flat.top_differs_ne']),
- 'C11': (P('FlagMain','FlagGrow','FlagClique','FlagClosed','FlagClosed2','Cycle') + Q('VR'),
-   ['Flat.flagComplex_spec','Flat.growLoop_spec','Flat.same_graph_same_family','Flat.complete_is_clique','Flat.closed_facets','Flat.facets_closed','cycle_lemma','Flat.copyNew_fact']),
+ 'C11': (P('FlagMain','FlagGrow','FlagClique','FlagClosed','FlagClosed2','Cycle') + Q('VR','Flag'),
+   ['Flat.flagComplex_spec','Flat.growLoop_spec','Flat.same_graph_same_family','Flat.complete_is_clique','Flat.closed_facets','Flat.facets_closed','cycle_lemma','Flat.copyNew_fact',
+    'Flat.flagOf_spec','Flat.flagOf_idem','Flat.flagOf_of_complete','Flat.growFlagQ_complete','Flat.addEdges_spec','Flat.growFlagQ_spec','Flat.growFlagQ_unknown','Flat.growFlagQ_nil']),
  'C12': (P('FlagMain') + Q('VR'), ['Flat.flagComplex_spec','Flat.vietorisRips_spec','Flat.vr_mono','Flat.vr_none','Flat.vr_all']),
  'C13': (P('FiltCore') + Q('Filtration'), ['Flat.visible_inv','Flat.visible_mono','Flat.newFS_FInv','Flat.setIndex_FInv','Flat.addByFaces_FInv','Flat.addByFaces_FInv_contract','Flat.addByBasis_FInv','Flat.delete_FInv','Flat.visibleC_spec','Flat.indices_sorted','Flat.iterate_restores','Flat.FInv_iff_check']),
  'C14': (P('FiltQuery') + Q('Filtration'), ['Flat.fContains_iff','Flat.fSimplices_eq','Flat.fCount_order','Flat.nextIndex_spec','Flat.simplices_eq','Flat.visible_eq_contains','Flat.visible_same','Flat.count_eq','Flat.counts_eq','Flat.euler_eq','Flat.next_spec','Flat.prev_spec','Flat.next_not_key','Flat.toMin_spec','Flat.toMax_spec','Flat.maxOrder_not_scoped']),
  'C15': (P('FlatRelabel') + Q('Relabel'), ['Flat.Inv.map','Flat.relabelSimplex_inv','Flat.fold_relabel_eq_map','Flat.relabel_spec','Flat.relabel_spec_pos','Flat.relabel_ok_iff','Flat.relabel_rejected','Flat.relabel_chain_rejected','Flat.freshArrow_fuel','Flat.disjointRenaming_spec','Flat.relabelDisjointFrom_spec']),
  'C16': (P('Compose','Compose2') + Q('Copy'), ['Flat.compose_union','Flat.compose_ok_iff','Flat.composeNew_eq','Flat.composeNew_spec']),
- 'C17': (P('Compose') + Q('Copy'), ['Flat.compose_union','Flat.copyNew_spec','Flat.copy_eq']),
+ 'C17': (P('Compose') + Q('Copy','Json'), ['Flat.compose_union','Flat.copyNew_spec','Flat.copy_eq','Flat.decode_encode_eq_copy','Flat.decode_encode','Flat.decode_encode_perm','Flat.encode_names','Flat.encode_faces_before','Flat.addSimplex_perm','Flat.decode_any_face_order','Flat.decode_encode_any_order']),
  'C18': (P('FlatCount') + Q('Generators'), ['Flat.full_simplex_counts','Flat.addWB_full','Flat.genPoints_spec','Flat.kSimplex_spec','Flat.kSimplex_counts','Flat.kVoid_spec','Flat.kVoid_counts','Flat.kSkeleton_spec','Flat.kSkeleton_counts','Flat.ring_spec',"Flat.ring_counts'",'Flat.ring_small']),
  'C19': (P('Integrate','Betti','FlatRestrict2') + Q('Euler'), ['sum_levels','M2.euler_poincare','Flat.restrict_spec','Flat.euler_def','Flat.levelSet_spec','Flat.levelSet_nested','Flat.integrate_levels','Flat.integrate_minsum','Flat.integrate_points','Flat.integrate_additive']),
- 'C20': (P('Embedding','Lattice'), ['Emb.assigned_wins','Emb.computed_once','Emb.wrong_dim_rejected','Emb.higher_order_rejected','Emb.clear_recomputes','Lattice.lattice_injective','Lattice.lattice_in_box']),
+ 'C20': (P('Embedding','Lattice') + Q('LatticeEmb'), ['Lat.pRat_eq','Lat.latticePos_eq','Lat.latticeXY_eq','Lat.reduce_val','Lat.latticeXY_injective','Lat.latticePos_injective','Lat.latticeXY_in_box','Emb.assigned_wins','Emb.computed_once','Emb.wrong_dim_rejected','Emb.higher_order_rejected','Emb.clear_recomputes','Lattice.lattice_injective','Lattice.lattice_in_box']),
 }
 json.dump({k: dict(modules=v[0], theorems=v[1]) for k, v in reg.items()}, open('props.json', 'w'), indent=1)
